@@ -154,20 +154,33 @@ def gen_path_case(ctx, cat, k, parts, o, n, rnd, seq):
     from annet.generators.exceptions import GeneratorError
     from .. import genrun
     gens, acl = [], []
+    # `--acl-safe`: every generator also has a narrower "safe" ACL (a sub-forest of its ACL); the run is restricted to it and the patch is
+    # then judged against the combined SAFE ACL
+    safe_mode = seq % 3 == 0
+
+    def sub_forest(rules):
+        out = []
+        for r in rules:
+            if rnd.random() < 0.6:
+                out.append(dict(r, kids=sub_forest(r["kids"])))
+        return out
     for name, rules in parts:
         text = "\n" + "".join("    " + ln + "\n" for ln in aclgen.acl_text(rules))
         # what this generator yields: the part of `new` its own ACL covers (annet's own filter used for input shaping only)
         mine = apply_acl(cases.tree(n), compile_acl_text("\n".join(aclgen.acl_text(rules)) + "\n", cat.vendor)) if rules else cases.tree([])
-        gens.append(genrun.make_generator(name, tree_prog(mine), text, cat.vendor))
-        acl += rules
+        safe_rules = sub_forest(rules) if safe_mode else rules
+        safe_text = "\n" + "".join("  " + ln + "\n" for ln in aclgen.acl_text(safe_rules))
+        gens.append(genrun.make_generator(name, tree_prog(mine), text, cat.vendor, acl_safe_text=safe_text if safe_mode else None))
+        acl += safe_rules
     dev = genrun.Dev(cat.hw)
-    rec = {"id": "%s-%s-gen%d" % (cat.profile, cat.names[k - 1], seq), "rb": k, "acl": aclgen.judge_view(acl), "old": o, "new": n,
+    rec = {"id": "%s-%s-gen%s%d" % (cat.profile, cat.names[k - 1], "safe" if safe_mode else "", seq), "rb": k, "acl": aclgen.judge_view(acl), "old": o, "new": n,
            "acl_text": "\n--\n".join("\n".join(aclgen.acl_text(r)) for _n, r in parts)}
     try:
-        res = genrun.old_new(dev, gens, running_text=cat.formatter.join(cases.tree(o)))
+        res = genrun.old_new(dev, gens, running_text=cat.formatter.join(cases.tree(o)), acl_safe=safe_mode)
         if res.err is not None:
             raise res.err
-        d, p = api._diff_and_patch(cat.device, res.old, res.new, res.acl_rules, None, False, rb=cat.compiled[k - 1])
+        d, p = api._diff_and_patch(cat.device, res.get_old(safe_mode), res.get_new(safe_mode), res.get_acl_rules(safe_mode), None, False,
+                                   rb=cat.compiled[k - 1])
         rec["cmds"] = cases.jpaths(cat.formatter.cmd_paths(p))
     except (AclNotExclusiveError, GeneratorError) as e:
         ctx.skip("generator path: run refused (%s)" % type(e).__name__)
